@@ -73,6 +73,9 @@ class Add(Logic):
             
         if not(self.ci is None):
             s += '_ci'
+            if (self.ci.getWidth() > 1):
+                # the width of the carry input is part of the interface
+                s += f'{self.ci.getWidth()}'
         if not(self.co is None):
             s += '_co'
         return s
